@@ -8,15 +8,15 @@ CONDS = [
     Cond('filter_ok', 'real extended_language_filter(range, tag) == RFC 4647 3.3.2 reference (+ empty-range / "*" rules)',
          'range: 0..3 subtags, each "*" or a symbolic string; tag: 0..4 symbolic subtags; subtag length 1..2 quick / 1..3 '
          'thorough over {a, b, 1, A}; well-formed by construction',
-         timeout={'quick': 110, 'thorough': 1800}),
+         timeout={'quick': 110, 'thorough': 900}),
     Cond('inherit_ok', 'language determined by the real matcher (via :lang(en), :lang(""), :lang("*"), :lang(fr,"en-*") '
          'with select and match) == reference: nearest lang / xml:lang incl. explicitly empty, else <meta> pragma, else '
          'unknown; iframe content is its own document in HTML/XHTML',
          'values {absent, en, fr, "", EN-us} on html, body, div, p, iframe-inner p; meta {absent, fr, ""}; HTML, XHTML, XML; '
          'all 10 elements of the skeleton (enumerated by symbolic index, body native)',
-         timeout={'quick': 110, 'thorough': 1200}, parts={'quick': 12, 'thorough': 14}),
+         timeout={'quick': 110, 'thorough': 600}, parts={'quick': 12, 'thorough': 14}),
     Cond('range_list_ok', 'real match_lang(el, ([r1, r2],)) on <p lang=tag> == ref(r1) or ref(r2)',
-         'r1 = a-(b|*), r2 = (c|*), tag of 0..2 subtags; same subtag bounds', timeout={'quick': 110, 'thorough': 1200}),
+         'r1 = a-(b|*), r2 = (c|*), tag of 0..2 subtags; same subtag bounds', timeout={'quick': 110, 'thorough': 600}),
 ]
 
 
